@@ -11,6 +11,7 @@ mod render;
 mod cram;
 mod escaping;
 mod rules;
+mod grammar;
 
 use common::*;
 use std::sync::Mutex;
@@ -49,6 +50,7 @@ fn main() {
             "C13" => capture::replay(&prop, &r),
             "C19" => render::replay(&prop, &r),
             "C07" => cram::replay(&prop, &r),
+            "C08" => grammar::replay(&prop, &r),
             "C11" => escaping::replay(&prop, &r),
             "C04" => escaping::replay(&prop, &r) && rules::replay(&prop, &r),
             _ => { eprintln!("no replay for {prop}"); false }
@@ -68,6 +70,7 @@ fn main() {
         "C13" => capture::run(&ctx, &prop),
         "C19" => render::run(&ctx, &prop),
         "C07" => cram::run(&ctx, &prop),
+        "C08" => grammar::run(&ctx, &prop),
         "C11" => escaping::run(&ctx, &prop),
         "C04" => {
             // string kinds (equal, no-eol, escaped) and pattern kinds (glob, cram glob, regex)
